@@ -454,7 +454,12 @@ def main(tier: str) -> int:
         "Token.end / is_connected and CustomOrder.__lt__; tied to /repo on every run by exact equality of token streams "
         "(type, line, col, text, _macro_length, _macro_end) for every Tokenizer.parse call, and of every is_connected decision, "
         "made while compiling the corpus and its re-layouts",
-        "the definition of `relayout` (Model/Layout.v) and the Python re-layouter harness/c15_layout.py that generates instances of it",
+        "the definition of `relayout` (Model/Layout.v) and the Python re-layouter harness/c15_layout.py that generates instances of it; "
+        "re-layouts with a comment GLUED to the preceding token are instances of relayout composed with C15_glued_comment (glued = "
+        "after one blank, for every tokenizer run); a leading comment line and a comment ended by the end of the file are covered by "
+        "the metamorphic runs and the tokenizer correspondence only",
+        "harness/c15_inside.py: the inventory of statement kinds x bracket kinds (hand-written from lexer_func_content.py, "
+        "command/nbt_operation.py, command/condition.py, command/_flow_control.py, command/utils.py) that puts a layout run inside every bracket",
         "outside the model: what the lexer and the commands do with tokens (they may read positions only through is_connected "
         "and CustomOrder, and bracket text only by re-tokenising it - checked by the metamorphic runs, not proved)",
     ]
